@@ -218,15 +218,44 @@ def accept_guarded(ctx: Ctx):
             for c in ast.iter_child_nodes(p):
                 parents[c] = p
 
+        def as_compare(t, positive):
+            """the order comparison that holds when `t` is `positive`, as (left, op class, right), or None"""
+            while isinstance(t, ast.UnaryOp) and isinstance(t.op, ast.Not):
+                t, positive = t.operand, not positive
+            if isinstance(t, ast.Compare) and len(t.ops) == 1 and isinstance(t.ops[0], (ast.Lt, ast.LtE, ast.Gt, ast.GtE)):
+                op = type(t.ops[0])
+                if not positive:
+                    op = {ast.Lt: ast.GtE, ast.LtE: ast.Gt, ast.Gt: ast.LtE, ast.GtE: ast.Lt}[op]
+                return (t.left, op, t.comparators[0], t)
+            return None
+
+        def leaves(block):
+            return bool(block) and isinstance(block[-1], (ast.Return, ast.Raise, ast.Continue, ast.Break))
+
         def guard_of(stmt):
-            """the innermost enclosing If in whose *body* stmt lies, up to the statement defining jump"""
+            """the innermost order comparison known to hold at stmt: the test of an enclosing `if` (body: as
+            written, else-branch: negated) or the negated test of an earlier sibling `if` that always leaves
+            (guard clause / early return)"""
             cur = stmt
             while cur in parents:
                 p = parents[cur]
-                if isinstance(p, ast.If) and any(cur is b or any(cur is x for x in ast.walk(b)) for b in p.body):
-                    t = p.test
-                    if isinstance(t, ast.Compare) and len(t.ops) == 1 and isinstance(t.ops[0], (ast.Lt, ast.LtE, ast.Gt, ast.GtE)):
-                        return p
+                for fld in ("body", "orelse"):
+                    blk = getattr(p, fld, None)
+                    if isinstance(blk, list) and any(cur is b for b in blk):
+                        i = [k for k, b in enumerate(blk) if cur is b][0]
+                        for sib in reversed(blk[:i]):
+                            if isinstance(sib, ast.If) and leaves(sib.body) and not sib.orelse:
+                                c = as_compare(sib.test, False)
+                                if c is not None:
+                                    return c
+                            if isinstance(sib, ast.If) and sib.orelse and leaves(sib.orelse) and not leaves(sib.body):
+                                c = as_compare(sib.test, True)
+                                if c is not None:
+                                    return c
+                        if isinstance(p, ast.If):
+                            c = as_compare(p.test, fld == "body")
+                            if c is not None:
+                                return c
                 cur = p
             return None
 
@@ -245,9 +274,8 @@ def accept_guarded(ctx: Ctx):
             g = guard_of(a)
             ok, why = False, "it is not inside the true branch of an error comparison"
             if g is not None:
-                t = g.test
-                l, r = t.left, t.comparators[0]
-                if isinstance(t.ops[0], (ast.Gt, ast.GtE)):
+                l, opc, r, _t = g
+                if opc in (ast.Gt, ast.GtE):
                     l, r = r, l
                 lt = any(isinstance(n, ast.Name) and n.id in tainted for n in ast.walk(l))
                 rt = any(isinstance(n, ast.Name) and n.id in tainted for n in ast.walk(r))
@@ -257,7 +285,7 @@ def accept_guarded(ctx: Ctx):
                     why = "the comparison is reversed: the extrapolated point is accepted when its error is LARGER"
                 else:
                     why = "the test does not compare the extrapolated point's error with the recorded error"
-            res.instance("ACCEPT-GUARDED", f"{q}: {src(a)[:60]}", sample={"line": a.lineno, "guard": src(g.test)[:80] if g is not None else None, "ok": ok})
+            res.instance("ACCEPT-GUARDED", f"{q}: {src(a)[:60]}", sample={"line": a.lineno, "guard": src(g[3])[:80] if g is not None else None, "ok": ok})
             if not ok:
                 ctx.finding("ACCEPT-GUARDED", f, a, f"the line-search extrapolation is accepted by `{src(a)[:80]}` but {why}: an accepted jump can then increase the objective", construct=f"{f.name}: acceptance {src(a)[:60]}")
 
